@@ -797,6 +797,7 @@ impl<Aux> Vm<'_, Aux> {
     pub fn run(&mut self, program: &CaoCompiledProgram) -> ExecutionResult<()> {
         self.runtime_data.current_program = program as *const _;
         let call_depth = self.runtime_data.call_stack.len();
+        let stack_height = self.runtime_data.value_stack.len();
         self.runtime_data
             .call_stack
             .push(CallFrame {
@@ -815,6 +816,11 @@ impl<Aux> Vm<'_, Aux> {
         // that repeated runs on one VM do not use up the call stack
         while self.runtime_data.call_stack.len() > call_depth {
             self.runtime_data.call_stack.pop();
+        }
+        // ... and the values the unfinished calls and scopes left behind (Abort exits with Ok from
+        // any depth), so that repeated runs do not use up the value stack either
+        if self.runtime_data.value_stack.len() > stack_height {
+            self.runtime_data.value_stack.clear_until(stack_height);
         }
         self.runtime_data.current_program = std::ptr::null();
         result
